@@ -1,26 +1,189 @@
 /-
   C15 — Handles and descriptors are released when the client releases them.
 
-  PROPERTY THEOREMS ONLY (model: `Fbr.PtRefs`; lemmas: `Fbr.Lemmas.Pt*`).
+  PROPERTY THEOREMS ONLY.  Model: `Fbr.PtRefs` — the handle table (`handles`, `cookies`,
+  `next_handle`), the inode table of C08, the mount-fd reference count, and a **descriptor
+  ledger**: `fds` counts the descriptors the process holds; every host `open*` is `allocFd` (+1,
+  may fail), every drop `freeFd` (−1).  Faults: a descriptor allocation fails whenever the fault
+  oracle `Env.failAt` says so for that allocation, or when the request's RLIMIT headroom is used
+  up — the theorems hold for EVERY oracle, every headroom, every history of requests, every host
+  answer, both `inode_file_handles` modes, `no_open`/`no_opendir` on or off (fields of `Env`).
+  Specification: `Fbr.PtSpec` (`Spec.hnds` = handles delivered and not yet released; `Spec.held` =
+  references held).  Lemmas: `Fbr.Lemmas.Pt{Count,Ledger,LedgerOps,LedgerStep,Handles,FreshTables}`.
 -/
 import Fbr.PtRefs
+import Fbr.PtSpec
 import Fbr.Lemmas.PtMap
 import Fbr.Lemmas.PtProj
+import Fbr.Lemmas.PtLedgerStep
+import Fbr.Lemmas.PtHandles
+import Fbr.Lemmas.PtFreshTables
+import Fbr.Lemmas.PtRun
+import Fbr.Lemmas.PtFresh
 
 namespace Fbr.Thm.C15
 open Fbr.PtRefs
 
+abbrev History := List (Option Nat × Op)
+
+/-- After ANY history, a handle is accepted together with an inode number (`HandleMap::get`, used
+    by getattr/read/write/readdir/release…) exactly when the client holds that handle and it was
+    delivered for that inode: from the `open`/`opendir`/`create` reply that returned it until the
+    `release`/`releasedir` (or `destroy`) that gave it back — not with another inode, not before,
+    not after. -/
+theorem handle_bound_to_inode (e : Env) (h : History) (hd : Hnd) (ino : Ino) :
+    handleGet (run e St.fresh h).1 hd ino = true
+      ↔ mget (Spec.init.run h (run e St.fresh h).2).hnds hd = some ino := by
+  have hh := run_hnds e h St.fresh Spec.init rfl
+  unfold handleGet
+  rw [hh]
+  cases hm : mget (Spec.init.run h (run e St.fresh h).2).hnds hd with
+  | none => simp
+  | some i => simp
+
+/-- Distinct opens get distinct handles: after any history every held handle is below
+    `next_handle`, so the handle the next `open`/`opendir`/`create` hands out is held by nobody. -/
+theorem handles_distinct (e : Env) (h : History) :
+    (∀ hd i, mget (run e St.fresh h).1.handles hd = some i → hd < (run e St.fresh h).1.nextHandle)
+    ∧ mget (run e St.fresh h).1.handles (run e St.fresh h).1.nextHandle = none
+    ∧ (∀ ino hr s' hd, doOpen e (run e St.fresh h).1 ino hr = (s', .handle hd) →
+        mget (run e St.fresh h).1.handles hd = none) := by
+  have hl := run_linv e h linv_fresh
+  have hnone : mget (run e St.fresh h).1.handles (run e St.fresh h).1.nextHandle = none := by
+    cases hm : mget (run e St.fresh h).1.handles (run e St.fresh h).1.nextHandle with
+    | none => rfl
+    | some i => exact absurd (hl.hk _ _ hm) (Nat.lt_irrefl _)
+  refine ⟨hl.hk, hnone, ?_⟩
+  intro ino hr s' hd ho
+  unfold doOpen at ho
+  have ht := tables_openInode e (run e St.fresh h).1 ino hr
+  split at ho
+  · cases ho
+  · rename_i s1 heq
+    rw [heq] at ht
+    have e2 : s1.nextHandle = hd := by have := (Prod.mk.inj ho).2; cases this; rfl
+    rw [← e2, nextHandle_of_tables ht]
+    exact hnone
+
 /-- `release` / `releasedir` remove the handle and its directory-position record, and only when
-    the request names the inode the handle was opened on. -/
+    the request names the inode the handle was opened on; and after any history a
+    directory-position record exists only for a handle that is still open. -/
 theorem release_removes_handle_and_cookie (s : St) (i : Ino) (h : Hnd) :
     (handleGet s h i = true →
         mget (doRelease s i h).1.handles h = none ∧ h ∉ (doRelease s i h).1.cookies
         ∧ (doRelease s i h).2 = .ok)
-    ∧ (handleGet s h i = false → doRelease s i h = (s, .err EBADF)) := by
-  constructor
+    ∧ (handleGet s h i = false → doRelease s i h = (s, .err EBADF))
+    ∧ (∀ (e : Env) (hist : History) (hd : Hnd), hd ∈ (run e St.fresh hist).1.cookies →
+        (mget (run e St.fresh hist).1.handles hd).isSome = true) := by
+  refine ⟨?_, ?_, ?_⟩
   · intro hg
     simp [doRelease, hg, freeFd]
   · intro hg
     simp [doRelease, hg]
+  · intro e hist hd hc
+    exact (run_linv e hist linv_fresh).ck hd hc
+
+/-- The descriptor ledger is balanced after every request of every history, wherever descriptor
+    allocations failed inside the requests: the process holds its 2 own descriptors, one per inode
+    kept by descriptor, one mount fd while some inode kept by handle (or nothing else) references
+    it, one per open handle — and NO temporary (`no_open`/`no_opendir` per-request files, parents
+    re-opened by handle, `O_PATH` probes, files of failed creates … are all closed again). -/
+theorem ledger_balanced (e : Env) (h : History) :
+    (run e St.fresh h).1.fds
+        = 2 + nFile (run e St.fresh h).1 + mfd (run e St.fresh h).1
+          + (run e St.fresh h).1.handles.length
+    ∧ (run e St.fresh h).1.mountRefs = nHand (run e St.fresh h).1 := by
+  have hl := run_linv e h linv_fresh
+  exact ⟨by have := hl.fds; omega, by have := hl.mr; omega⟩
+
+/-- Once the client has released every handle and forgotten every inode, the server holds no more
+    inode objects, handles, directory-position records or descriptors than a freshly started
+    (initialised) server: at most the root entry, no handle, no cookie, 2 descriptors + 1 for the
+    root (its `O_PATH` descriptor, or the mount fd it references).  Any history, any fault
+    placement, `use_host_ino = false` (see C08 for `use_host_ino = true`: same statement under
+    `clobbered = false`), both `inode_file_handles` modes, any `no_open`/`no_opendir`. -/
+theorem tables_return_to_fresh (e : Env) (hk : e.useHostIno = false) (h : History)
+    (hsat : (run e St.fresh h).1.lookups + 2 < U64_MAX)
+    (hheld : ∀ i, i ≠ ROOT_ID → (Spec.init.run h (run e St.fresh h).2).held i = 0)
+    (hhnds : (Spec.init.run h (run e St.fresh h).2).hnds = []) :
+    ((run e St.fresh h).1.data = [] ∨ ∃ d, (run e St.fresh h).1.data = [(ROOT_ID, d)])
+    ∧ (run e St.fresh h).1.handles = []
+    ∧ (run e St.fresh h).1.cookies = []
+    ∧ (run e St.fresh h).1.fds = 2 + (run e St.fresh h).1.data.length := by
+  have hl := run_linv e h linv_fresh
+  have hg := run_good e h ⟨never_clobbers_keep e hk h, hsat⟩
+  have hh : (run e St.fresh h).1.handles = [] := by
+    rw [run_hnds e h St.fresh Spec.init rfl]; exact hhnds
+  have hdata : (run e St.fresh h).1.data = [] ∨ ∃ d, (run e St.fresh h).1.data = [(ROOT_ID, d)] := by
+    apply single_entry hl.nd ROOT_ID
+    intro k v hm
+    apply Classical.byContradiction
+    intro hne
+    have := hg.ref k hne
+    rw [hm, hheld k hne] at this
+    simp at this
+  have hck : (run e St.fresh h).1.cookies = [] := by
+    cases hc : (run e St.fresh h).1.cookies with
+    | nil => rfl
+    | cons x r =>
+      have := hl.ck x (by rw [hc]; simp)
+      rw [hh] at this; simp at this
+  refine ⟨hdata, hh, hck, ?_⟩
+  have hf := hl.fds
+  have hm := hl.mr
+  rw [hh] at hf
+  rcases hdata with hd | ⟨d, hd⟩
+  · simp only [nFile, nHand, mfd, hd, cnt_nil, List.length_nil] at hf hm ⊢
+    simp [hm] at hf
+    omega
+  · simp only [nFile, nHand, mfd, hd, cnt_cons, cnt_nil, List.length_cons, List.length_nil] at hf hm ⊢
+    cases hfh : d.fh with
+    | none => simp [hfh] at hf hm; simp [hm] at hf; omega
+    | some x => simp [hfh] at hf hm; simp [hm] at hf; omega
+
+/-- The client can always get there: releasing a held handle removes it, and forgetting a number
+    with (at least) its held count removes the entry — so the hypotheses of
+    `tables_return_to_fresh` are reachable from every state by the client's own cleanup. -/
+theorem cleanup_is_possible (e : Env) (s : St) :
+    (∀ hd ino, handleGet s hd ino = true → mget (doRelease s ino hd).1.handles hd = none)
+    ∧ (∀ i d n, i ≠ ROOT_ID → mget s.data i = some d → d.refs ≤ n →
+        mget (forgetOne e s i n).data i = none) := by
+  constructor
+  · intro hd ino hg; simp [doRelease, hg, freeFd]
+  · intro i d n hi hm hn
+    rw [forgetOne_data_self e s i n d hi hm]
+    simp; omega
+
+/-! ### non-vacuity -/
+
+def exEnv : Env := { useHostIno := false, noOpen := false, noOpendir := false, failAt := fun n => n == 5 }
+
+/-- init; create a (handle 1); opendir root (handle 2); a lookup whose descriptor allocation is
+    refused by the RLIMIT headroom; a lookup refused by the fault oracle; readdirplus; release
+    both; forget -/
+def exHist : History :=
+  [ (none, .init (.ok { id := ⟨0, 0, 0⟩, fh := none, safe := true, dir := true })),
+    (none, .create ROOT_ID false false .created (.ok { id := ⟨1, 0, 0⟩, fh := none, safe := true }) 0),
+    (none, .opendir ROOT_ID 0),
+    (some 0, .lookup ROOT_ID false (.ok { id := ⟨2, 0, 0⟩, fh := none, safe := true })),
+    (none, .lookup ROOT_ID false (.ok { id := ⟨2, 0, 0⟩, fh := none, safe := true })),
+    (none, .readdirplus ROOT_ID 2 0 (.ok [.dot, .name (.ok { id := ⟨1, 0, 0⟩, fh := none, safe := true })]) 0 .err),
+    (none, .release 2 1),
+    (none, .releasedir ROOT_ID 2),
+    (none, .forget 2 1) ]
+
+/-- the hypotheses of `tables_return_to_fresh` are satisfiable by a history with handles, a cookie,
+    both kinds of injected descriptor faults and an undone readdirplus entry; the final state is
+    the fresh one: root only, 3 descriptors -/
+example :
+    (run exEnv St.fresh exHist).2.map (fun r => match r with
+        | .err e => e
+        | _ => 0) = [0, 0, 0, 24, 24, 0, 0, 0, 0]
+    ∧ (run exEnv St.fresh exHist).1.lookups + 2 < U64_MAX
+    ∧ (Spec.init.run exHist (run exEnv St.fresh exHist).2).hnds = []
+    ∧ (Spec.init.run exHist (run exEnv St.fresh exHist).2).held 2 = 0
+    ∧ (run exEnv St.fresh exHist).1.data.length = 1
+    ∧ (run exEnv St.fresh exHist).1.fds = 3 := by
+  decide
 
 end Fbr.Thm.C15
